@@ -54,6 +54,12 @@ def instances(th):
     return single, tern, comp
 
 
+def wide_instance(th):
+    return dict(nsig=2, leafbits=8, leafshapes="LSw", consts="CS2", ops="AllOps", amts="Amts2", idxs="Ix2", reps="{0,2}",
+                partws="{1,2}", pats="PS2", maxlen=8 if th else 6, maxstack=3, maxw=26, mode="free",
+                override="CONSTANT Vals <- WideVals")
+
+
 def run_dump_stage(ctx, name, inst, want_tb, sides, prop):
     dump = os.path.join(ctx.tmp, "dump_" + name)
     r = ctx.tlc("MC_AmExpr", stage="mc/" + name, cfg_text=CFG.format(**inst), workers=16,
@@ -109,7 +115,8 @@ def sim_worker(job):
             fps.append(hash(r))
             ops[c[0][-1]["op"]] = ops.get(c[0][-1]["op"], 0) + 1
             if sample is None and len(c[0]) >= 5:
-                sample = {"program": r, "shape": "%s(%d)" % ("signed" if c[2] else "unsigned", c[1]), "values_first8": c[3][:8]}
+                sample = {"program": r, "shape": "%s(%d)" % ("signed" if c[2] else "unsigned", c[1]),
+                          "values_first8": (list(c[3].items()) if isinstance(c[3], dict) else c[3])[:8]}
     mism = []
     for i in range(0, len(cases), 250):
         mism.extend(expr_replay.replay_batch(cases[i:i + 250], leaf_bits, nsig, want_tb))
@@ -137,6 +144,8 @@ def run(ctx, sides=SIDES, want_tb=False, prop="C01"):
     run_dump_stage(ctx, "single", single, want_tb, sides, prop)
     run_dump_stage(ctx, "ternary", tern, want_tb, sides, prop)
     run_sim_stage(ctx, "compose", comp, 60000 if th else 8000, want_tb, sides, prop)
+    # wide operands (5..8 bit leaves, results up to 26 bits) on 64 sampled corner valuations
+    run_sim_stage(ctx, "wide", wide_instance(th), 30000 if th else 4000, want_tb, sides, prop)
     if th or os.environ.get("VERIF_PAIRS"):
         # all compositions of two operators over small leaves (exhaustive): ~10^5 programs
         pairs = dict(comp, leafbits=2, leafshapes="LSp", maxlen=5, mode="pair", maxw=12)
